@@ -157,6 +157,8 @@ def run(rep, tier, seed):
         dict(name="shape_D3", D=3, P=1, pool="PoolMat", acts="ActsShape", idx="IdxSmall", rs="RsCat", maxlen=1, maxobjs=6),
     ]
     U.relational_check(rep, configs, "trunc", limit=lim)
+    # data-dependent branches: a comparison is decided by the zeroth coefficients whatever the degree (exact replay at D = 3)
+    U.machine_check(rep, [dict(name="cmp_bcast_D3", D=3, P=2, pool="PoolBcast", acts="ActsCmp", maxlen=2, cmps="CmpSet")], "C12")
     functions_truncated(rep, tier, seed)
     relational_ops(rep, seed)
     return rep.finish("cases: every TLC-generated behaviour at D re-run at every D' < D; every function x coefficient pattern at every D' <= D "
